@@ -1015,7 +1015,48 @@ func recordsOfAllSources(lm *loadTasksModel, mk *ssa.MakeMap, fld, fName *types.
 		}
 		kroot, kch := lm.deep(mu.Key)
 		if !chainIs(kch, fName) || !isElem(kroot) {
-			good = false
+			// … or keyed by the range KEY of AllSourcesByName()'s map (entries are keyed by their Name there),
+			// the record being built from the range VALUE of the same iteration
+			ke, isKE := stripConv(mu.Key).(*ssa.Extract)
+			if !isKE || ke.Index != 1 {
+				good = false
+				return
+			}
+			var elemV ssa.Value
+			for _, ref := range *ke.Tuple.Referrers() {
+				if e2, ok := ref.(*ssa.Extract); ok && e2.Index == 2 && isElem(e2) {
+					elemV = e2
+				}
+			}
+			if elemV == nil {
+				good = false
+				return
+			}
+			kroot = elemV
+		}
+		// the record built by a constructor (newTaskSource(sc, …) with `Source: sc`): the member the settings
+		// are read from is the constructor's argument
+		if call, isCall := stripConv(mu.Value).(*ssa.Call); isCall {
+			idx := -1
+			if st, ok := call.Type().Underlying().(*types.Struct); ok {
+				for i := 0; i < st.NumFields(); i++ {
+					if st.Field(i) == fld {
+						idx = i
+					}
+				}
+			}
+			if idx < 0 {
+				good = false
+				return
+			}
+			fv, ok := fieldValue(cv(call), idx, false, 0)
+			if !ok {
+				good = false
+				return
+			}
+			if u := unfold(fv); !u.top() || stripConv(u.v) != kroot {
+				good = false
+			}
 			return
 		}
 		// the record: a local composite whose field fld was last set to the element
